@@ -57,6 +57,9 @@ enum Op {
     /// statics are): equal to key 0/1
     GocShared(Kind),
     Goc(Kind, usize),
+    /// get_or_create whose `op` closure panics (caught): for an absent key the entry is created first, and the panic
+    /// unwinds while the shard's write lock is held (the lock is poisoned from then on)
+    GocPanic(Kind, usize),
     Get(Kind, usize),
     Del(Kind, usize),
     Retain(Kind, Pred),
@@ -107,6 +110,7 @@ fn alphabet() -> Vec<Op> {
             a.push(Op::Goc(k, i));
         }
     }
+    a.extend([Op::GocPanic(C, 3), Op::GocPanic(G, 0), Op::GocPanic(H, 1)]);
     a.extend([Op::Get(C, 1), Op::Get(C, 2), Op::Get(G, 0), Op::Get(H, 0)]);
     a.extend([Op::Del(C, 0), Op::Del(C, 4), Op::Del(C, 3), Op::Del(G, 1), Op::Del(H, 0)]);
     a.extend([Op::Retain(C, Pred::KeepK1), Op::Retain(C, Pred::DropAll), Op::Retain(G, Pred::DropAll), Op::Retain(H, Pred::KeepK1)]);
@@ -169,6 +173,15 @@ fn apply_real_shared(reg: &Registry<Key, Counting>, op: Op, k3: &str, shared: Op
             };
             format!("id{}", id)
         }
+        Op::GocPanic(kind, i) => {
+            let k = mk_key(i, k3);
+            let r = std::panic::catch_unwind(std::panic::AssertUnwindSafe(|| match kind {
+                Kind::C => reg.get_or_create_counter(&k, |_| -> usize { panic!("op closure panics") }),
+                Kind::G => reg.get_or_create_gauge(&k, |_| -> usize { panic!("op closure panics") }),
+                Kind::H => reg.get_or_create_histogram(&k, |_| -> usize { panic!("op closure panics") }),
+            }));
+            format!("panicked={}", r.is_err())
+        }
         Op::Get(kind, i) => {
             let k = mk_key(i, k3);
             let r = match kind {
@@ -226,6 +239,11 @@ fn apply_model(m: &mut Model, next_id: &mut usize, op: Op, k3: &str) -> String {
             });
             format!("id{}", id)
         }
+        Op::GocPanic(kind, i) => {
+            // the entry exists afterwards whether or not it did before; the closure's panic reaches the caller
+            let _ = apply_model(m, next_id, Op::Goc(kind, i), k3);
+            "panicked=true".into()
+        }
         Op::Get(kind, i) => format!("{:?}", m.get(&(kind, canon(&mk_key(i, k3))))),
         Op::Del(kind, i) => format!("{}", m.remove(&(kind, canon(&mk_key(i, k3)))).is_some()),
         Op::Retain(kind, p) => {
@@ -282,7 +300,7 @@ fn e3(ctx: &Ctx, res: &mut PartResult, depth: usize, first: Option<usize>, samen
             let mut bad: Option<(&str, String)> = None;
             if real != want {
                 let sig = match op {
-                    Op::Goc(..) | Op::GocShared(..) => "get-or-create-wrong-storage",
+                    Op::Goc(..) | Op::GocShared(..) | Op::GocPanic(..) => "get-or-create-wrong-storage",
                     Op::Get(..) => "get-wrong-storage",
                     Op::Del(..) => "delete-reports-untruthfully",
                     Op::Retain(..) => "retain-visits-wrong-entries",
@@ -510,7 +528,7 @@ fn main() {
     driver::main(CheckDef {
         prop: "C06",
         level: "model_checking",
-        rule: "E3: every sequence up to the stated depth over 28 operations (get_or_create / get / delete / retain / clear / visit / get_*_handles over kinds x keys {k1, k1' = equal key built statically with permuted labels, k2, k3 = same shard}) on a fresh real Registry with a construction-counting Storage, compared after every step with a map reference (results, storage identity, construction count, both listings); shard counts 1, 2, 16 via CPU affinity; E1: all SC interleavings (pb-bounded) of 3 threads x 2 ops, brute-force linearizability against the same reference; distinct = distinct reference states / outcomes",
+        rule: "E3: every sequence up to the stated depth over 31 operations (get_or_create — also with an op closure that panics while the shard write lock is held, caught — / get / delete / retain / clear / visit / get_*_handles over kinds x keys {k1, k1' = equal key built statically with permuted labels, k2, k3 = same shard}) on a fresh real Registry with a construction-counting Storage, compared after every step with a map reference (results, storage identity, construction count, both listings); shard counts 1, 2, 16 via CPU affinity; E1: all SC interleavings (pb-bounded) of 3 threads x 2 ops, brute-force linearizability against the same reference; distinct = distinct reference states / outcomes",
         assumptions: &["E1: sequential consistency; lock release is not a scheduling point of its own (the next operation of the releasing thread is)", "keys with pairwise distinct label names"],
         parts,
         run,
